@@ -48,13 +48,13 @@ def shard_huge(kind, tier):
     """one message of 2^29 bytes: the inner hash's bit length passes 2^32"""
     import hmac as _hmac
     ck = core.Checker(PROPERTY_ID)
-    n = 1 << 29
+    clen, cnt = (1 << 26) + 13, 8
     key = pat(5, 0, 7)
     h = _hmac.new(key, digestmod=kind)
-    chunk = b"\xff" * (1 << 24)
-    for _ in range(n >> 24):
+    chunk = b"\xff" * clen
+    for _ in range(cnt):
         h.update(chunk)
-    cases = [(["mnew s0 hmac %s %s" % (kind, P(5, 0, 7)), "minput s0 %s" % P(1, 0, n), "mraw s0"], ["-", "-", obs_of(h.digest())], {"nt": True})]
+    cases = [(["mnew s0 hmac %s %s" % (kind, P(5, 0, 7)), "minput_rep s0 %s %d" % (P(1, 0, clen), cnt), "mraw s0"], ["-", "-", obs_of(h.digest())], {"nt": True})]
     ck.run(cases, nontrivial=_nt)
     ck.stats.states = len(cases)
     return ck.stats
